@@ -8,7 +8,7 @@
      TABLE = ((#KEY #uncompressed) ...), KEY = codec byte followed by the compressed bytes, instantiates `decompress` (phase 2; trusted: cramjam)
      STRICT = 1: a bit-packed run must be present in full; 0: only the bytes of the values needed. *)
 From Coq Require Import NArith ZArith List String Ascii Bool.
-From Pq Require Import Base.Bytes Base.ListX Extract.Sx Thrift.Compact Codec.Hybrid Format.Phys Format.Meta Format.Page Format.File Format.Enc Impl.RPages Impl.RChunk Impl.WPagesFmt.
+From Pq Require Import Base.Bytes Base.ListX Extract.Sx Thrift.Compact Codec.Hybrid Format.Phys Format.Meta Format.Page Format.File Format.Enc Impl.RPages Impl.RChunk Impl.WPagesFmt Impl.WLevels Impl.WChunk Impl.RSelf.
 From Pq Require Extract.Cmd_Thrift.
 Import ListNotations.
 Open Scope string_scope.
@@ -244,6 +244,54 @@ Definition h_fmt_fp_page (a : list sx) : sx :=
   | _ => err "arity"
   end.
 
+(* writer model of a whole column chunk (Impl/WChunk.v) and the reader model with the selfmade shortcuts (Impl/RSelf.v)
+     (fmt_w_chunk V2 OPTIONAL TYPE TLEN CODEC K LABELS PAGES TABLE) -> (ok #chunk (#raw ...) (CELL ...) | (none))
+        LABELS = () | ((VALUE ...))     PAGES = ((CELL ...) ...), for a categorical CELL = () | code
+        #raw = the uncompressed payloads the chunk compresses (phase 1: call with TABLE = (), compress, call again)
+     (fmt_rd_chunk_sm SELFMADE SKIPNULLS INPLACE TYPE TLEN MAXDEF CODEC ROWS #chunk TABLE) -> (ok (CELL ...)) | (bad why) | (uns why) *)
+Definition code_of (c : option value) : option N := match c with Some (VNum n) => Some n | _ => None end.
+
+Definition w_raws (c : wchunk) : list bytes :=
+  ((match wc_labels c with Some labels => [plain_enc (wc_type c) labels] | None => [] end) ++
+   map (fun p => if wc_v2 c then w_values c p else w_defs c p ++ w_values c p ++ [0; 0; 0; 0; 0; 0; 0; 0]) (wc_pages c))%list.
+
+Definition h_fmt_w_chunk (a : list sx) : sx :=
+  match a with
+  | [v2; op; ty; tl; co; k; labels; pages; t] =>
+    match as_bool v2, as_bool op, as_Z ty, as_N tl, as_Z co, as_N k,
+          Sx.as_list_of (Sx.as_list_of as_value) labels, Sx.as_list_of (Sx.as_list_of as_cell) pages, as_table t with
+    | Some v2, Some op, Some ty, Some tl, Some co, Some k, Some labels, Some pages, Some t =>
+      match ptype_of_id ty with
+      | Some pt =>
+        let lab := match labels with l :: _ => Some l | [] => None end in
+        let c := {| wc_v2 := v2; wc_optional := op; wc_type := pt; wc_tlen := tl; wc_codec := co; wc_k := N.to_nat k;
+                    wc_labels := lab;
+                    wc_pages := map (fun cells => match lab with Some _ => WDictP (map code_of cells) | None => WPlainP cells end) pages |} in
+        SL [S_ "ok"; SB (w_chunk (table_compress t) c); slist SB (w_raws c);
+            match w_chunk_cells c with Some cells => slist s_cell cells | None => SL [S_ "none"] end]
+      | None => err "args"
+      end
+    | _, _, _, _, _, _, _, _, _ => err "args"
+    end
+  | _ => err "arity"
+  end.
+
+Definition h_fmt_rd_chunk_sm (a : list sx) : sx :=
+  match a with
+  | [sm; sk; ip; ty; tl; md; co; rows; ch; t] =>
+    match as_bool sm, as_bool sk, as_bool ip, as_Z ty, as_N tl, as_N md, as_Z co, as_N rows, as_bytes ch, as_table t with
+    | Some sm, Some sk, Some ip, Some ty, Some tl, Some md, Some co, Some rows, Some ch, Some t =>
+      match ptype_of_id ty with
+      | Some pt =>
+        s_rs (fun cells => [slist s_cell cells])
+             (rd_chunk_sm (table_decompress t) ch sm sk ip {| cd_type := pt; cd_tlen := tl; cd_maxdef := md |} co rows None ch 0 [])
+      | None => err "args"
+      end
+    | _, _, _, _, _, _, _, _, _, _ => err "args"
+    end
+  | _ => err "arity"
+  end.
+
 Definition table : list (string * handler) :=
-  [("fmt_fp_page", h_fmt_fp_page); ("fmt_rd_chunk", h_fmt_rd_chunk); ("fmt_rd_data_page", h_fmt_rd_data_page); ("fmt_pages", h_fmt_pages); ("fmt_validate", h_fmt_validate); ("fmt_decode", h_fmt_decode);
+  [("fmt_w_chunk", h_fmt_w_chunk); ("fmt_rd_chunk_sm", h_fmt_rd_chunk_sm); ("fmt_fp_page", h_fmt_fp_page); ("fmt_rd_chunk", h_fmt_rd_chunk); ("fmt_rd_data_page", h_fmt_rd_data_page); ("fmt_pages", h_fmt_pages); ("fmt_validate", h_fmt_validate); ("fmt_decode", h_fmt_decode);
    ("fmt_payloads", h_fmt_payloads); ("fmt_encode", h_fmt_encode); ("fmt_table", h_fmt_table)].
